@@ -266,6 +266,30 @@ theorem rowFor_smul (ab : α → AB α) (xi w c : α) (a : List α) :
   simp only [Function.comp]
   ring
 
+/-! ### C01.d third series and shapes -/
+
+theorem accRow_eq_zipWith (xi w : α) (uv : List (α × α)) :
+    accRow xi w uv = List.zipWith (fun u v => -(2 * xi * w * v + w ^ 2 * u)) (uv.map (·.1)) (uv.map (·.2)) := by
+  simp only [accRow, List.zipWith_map, List.zipWith_self]
+  apply List.map_congr_left
+  intro x _
+  ring
+
+theorem rowFor_acc (ab : α → AB α) (xi w : α) (nacc : List α) :
+    (rowFor ab xi w nacc).2.2 =
+      List.zipWith (fun u v => -(2 * xi * w * v + w ^ 2 * u)) (rowFor ab xi w nacc).1 (rowFor ab xi w nacc).2.1 := by
+  simp only [rowFor, accRow_eq_zipWith]
+
+theorem rowFor_lengths (ab : α → AB α) (xi w : α) (nacc : List α) :
+    (rowFor ab xi w nacc).1.length = nacc.length ∧ (rowFor ab xi w nacc).2.1.length = nacc.length ∧
+      (rowFor ab xi w nacc).2.2.length = nacc.length := by
+  simp [rowFor]
+
+theorem zeroRow_lengths (acc : List α) :
+    (zeroRow acc).1.length = acc.length ∧ (zeroRow acc).2.1.length = acc.length ∧
+      (zeroRow acc).2.2.length = acc.length := by
+  simp [zeroRow]
+
 end Ring
 
 /-! ## the full `response` (needs `/` for `w = c / T`) -/
@@ -324,6 +348,66 @@ theorem response_lin (a b : List α) (hl : a.length = b.length) (k d : α) (ps :
       simp only [response_cons_nonzero _ _ _ _ _ _ _ h, Option.bind_some, Option.map_some,
         List.zipWith_map]
       simp [hrow]
+
+theorem response_isSome_iff (acc ps : List α) :
+    (response c isZero ab xi acc ps).isSome ↔ ps ≠ [] := by
+  cases ps with
+  | nil => simp [response]
+  | cons p0 rest => cases h : isZero p0 <;> simp [response, h]
+
+/-- shape: one row per period, every series as long as the record -/
+theorem response_shape (acc ps : List α) (r : List (List α × List α × List α))
+    (hr : response c isZero ab xi acc ps = some r) :
+    r.length = ps.length ∧ ∀ row ∈ r, row.1.length = acc.length ∧ row.2.1.length = acc.length ∧
+      row.2.2.length = acc.length := by
+  have hrow : ∀ p, (rowOf c ab xi acc p).1.length = acc.length ∧ (rowOf c ab xi acc p).2.1.length = acc.length ∧
+      (rowOf c ab xi acc p).2.2.length = acc.length := by
+    intro p
+    have := rowFor_lengths ab xi (c / p) (acc.map (fun x => -x))
+    simpa [rowOf] using this
+  cases ps with
+  | nil => simp [response] at hr
+  | cons p0 rest =>
+    cases h : isZero p0 with
+    | true =>
+      rw [response_cons_zero _ _ _ _ _ _ _ h, Option.some.injEq] at hr
+      subst hr
+      refine ⟨by simp, ?_⟩
+      intro row hrow'
+      rcases List.mem_cons.mp hrow' with rfl | hm
+      · exact zeroRow_lengths acc
+      · obtain ⟨p, _, rfl⟩ := List.mem_map.mp hm
+        exact hrow p
+    | false =>
+      rw [response_cons_nonzero _ _ _ _ _ _ _ h, Option.some.injEq] at hr
+      subst hr
+      refine ⟨by simp, ?_⟩
+      intro row hrow'
+      obtain ⟨p, _, rfl⟩ := List.mem_map.mp hrow'
+      exact hrow p
+
+/-- the row of a non-zero period, wherever it stands in the period list -/
+theorem response_row (acc ps : List α) (r : List (List α × List α × List α))
+    (hr : response c isZero ab xi acc ps = some r) (j : Nat) (p : α) (hj : ps[j]? = some p)
+    (hp : isZero p = false) : r[j]? = some (rowOf c ab xi acc p) := by
+  cases ps with
+  | nil => simp at hj
+  | cons q0 rest =>
+    cases hq : isZero q0 with
+    | false =>
+      rw [response_cons_nonzero _ _ _ _ _ _ _ hq, Option.some.injEq] at hr
+      subst hr
+      rw [List.getElem?_map, hj]; rfl
+    | true =>
+      rw [response_cons_zero _ _ _ _ _ _ _ hq, Option.some.injEq] at hr
+      subst hr
+      cases j with
+      | zero =>
+        simp only [List.getElem?_cons_zero, Option.some.injEq] at hj
+        rw [hj, hp] at hq; exact absurd hq (by simp)
+      | succ n =>
+        simp only [List.getElem?_cons_succ] at hj ⊢
+        rw [List.getElem?_map, hj]; rfl
 
 end Field
 
